@@ -1502,7 +1502,8 @@ impl AllowedRange {
     #[must_use]
     /// Return true if the value is present in the allowed range.
     pub fn contains(&self, value: i64) -> bool {
-        self.min <= value && value < self.max
+        // `no_check()` has max == i64::MAX, which must itself be accepted.
+        self.min <= value && (value < self.max || self.max == i64::MAX)
     }
 
     /// Returns how far we're outside the allowed range.
